@@ -78,6 +78,9 @@ pub fn k_fill_buf<N: Nd, const F: usize, const CAP: usize, const FAULT: bool>(nd
 pub fn k_fill_buf_f7_c5<N: Nd>(nd: &mut N) {
     k_fill_buf::<N, 7, 5, false>(nd)
 }
+pub fn k_fill_buf_f9_c6<N: Nd>(nd: &mut N) {
+    k_fill_buf::<N, 9, 6, false>(nd)
+}
 pub fn k_fill_buf_fault_f7_c5<N: Nd>(nd: &mut N) {
     k_fill_buf::<N, 7, 5, true>(nd)
 }
@@ -87,4 +90,6 @@ harnesses! {
     libk_fill_buf_f7_c5 => k_fill_buf_f7_c5;
     /// @meta props=C14,C06:t tier=quick kind=K stage2=pub timeout=1500 mem=12 unwind=10 bounds="seq_io::fill_buf on capacity 5, file <= 7 bytes, chunking and interrupts as above, plus a hard error of any of 4 kinds at any of the first 6 source calls"
     libk_fill_buf_fault_f7_c5 => k_fill_buf_fault_f7_c5;
+    /// @meta props=C03:t,C14:t tier=thorough kind=K stage2=pub timeout=5000 mem=30 unwind=12 bounds="as libk_fill_buf_f7_c5 with capacity 6 and files <= 9 bytes"
+    libk_fill_buf_f9_c6 => k_fill_buf_f9_c6;
 }
